@@ -64,6 +64,15 @@ def oracle_automaton(c: Case, tr: Trace) -> Optional[str]:
             else:
                 k = st[1]
                 ok = (k == r and (r != 2 or top[2])) or (k == 1 and r == 2)
+                if not ok and k == 0 and r == 2 and c.cfg.mi:
+                    # must_if< Errors >::control: the failure hook of a rule with raise_on_failure raises (HL's exitOkM); and such a rule never fails locally
+                    rof = set(c.g.mi_rof) if getattr(c.g, 'mi_rof', None) is not None else set(getattr(c.g, 'mi_msgs', None) or ())
+                    ok = i in rof
+                if ok and k == 0 and r == 0 and c.cfg.mi:
+                    rof = set(c.g.mi_rof) if getattr(c.g, 'mi_rof', None) is not None else set(getattr(c.g, 'mi_msgs', None) or ())
+                    if i in rof:
+                        return f"rule {i} has raise_on_failure under the must_if control but failed locally"
+
             if not ok:
                 return f"rule {i} returned {r} but its hooks ended in state {st} (unwind() available: {top[2]})"
             stack.pop()
@@ -75,18 +84,30 @@ def oracle_automaton(c: Case, tr: Trace) -> Optional[str]:
 def oracle_raise_source(c: Case, tr: Trace) -> Optional[str]:
     """raise only from a must-context, a raise rule (or a limit wrapper)."""
     open_kinds: List[str] = []
+    open_ids: List[int] = []
+    rof = set()
+    if c.cfg.mi:      # must_if< Errors >::control: the failure hook of a rule with raise_on_failure raises for that rule itself (Lean: raiseOK)
+        rof = set(c.g.mi_rof) if getattr(c.g, 'mi_rof', None) is not None else set(getattr(c.g, 'mi_msgs', None) or ())
+    prev = ''
     for l in tr.events:
         p = l.split()
         if p[0] == 'E':
             nid = int(p[1])
             open_kinds.append(c.g.nodes[nid].kind if nid in c.g.nodes else '?')
+            open_ids.append(nid)
         elif p[0] == 'X':
             open_kinds.pop()
+            open_ids.pop()
         elif p[0] == 'ra':
             if int(p[1]) >= 1000000:
+                prev = l
+                continue
+            if open_ids and int(p[1]) == open_ids[-1] and int(p[1]) in rof and prev.split()[:2] == ['fa', p[1]]:
+                prev = l
                 continue
             if not open_kinds or open_kinds[-1] not in ('must', 'raise'):
                 return f"raise for rule {p[1]} while the innermost invocation is of kind {open_kinds[-1] if open_kinds else None}"
+        prev = l
     return None
 
 
@@ -253,6 +274,9 @@ def run(tier: str) -> int:
                                     inputs=profiles.inputs_exhaustive(3, 4, cap_q=50, cap_t=300), per_tu=2,
                                     configs=lambda g, root, tier: [Config(root, 1, 'o', 'lf_crlf', 0, 1, 0, 0, 0, cv) for cv in (1, 2, 3)],
                                     ctx_names=['top', 'seq-tail', 'in-tcrf']),
+        # the run's control is must_if< Errors, ctl >::control (C08_must_if_never_fails, C08_protocol with Ctx.msgs): failure hooks that raise, with
+        # messages and with the documented raise_on_failure opt-in / opt-out table
+        profiles.mustif_profile('mi', 8, 40, ORACLES + [('must_if', _oracle_mustif)], per_tu=2),
         # the logging control as the Base of the state-shuffling adaptors (rotate_states_left / right, reverse_states, remove_first_state;
         # zero-, one- and three-state overloads): same hooks as a plain parse, and every hook is handed the states in the documented order
         profiles.random_profile('shuf', False, True, 6, 40, ORACLES + [('shuffle', oracle_shuffle)], actions_mode='throw', racts='off',
@@ -266,6 +290,11 @@ def run(tier: str) -> int:
     ]
     return engine.run_engine('C08', tier, ['PegtlVerif.Props.C08'], ps,
                              extra=lambda v, cov, rng: coverage_part(v, cov, rng, tier))
+
+
+def _oracle_mustif(c: Case, tr: Trace) -> Optional[str]:
+    from .c05_mustif import oracle_mustif
+    return oracle_mustif(c, tr)
 
 
 def oracle_shuffle(c: Case, tr: Trace) -> Optional[str]:
